@@ -172,6 +172,24 @@ def search(ctx):
                 vios.append(v)
                 break
     evals += base.evals
+    # (4) one line, two effective directories: an allow rule with a cwd-relative pattern that matches a command inside a
+    # `(cd DIR && …)` scope leaves a sibling outside that scope alone, wherever the two stand (deterministic; every analysis
+    # gets a freshly parsed configuration)
+    from dippy.core.analyzer import analyze as _analyze
+
+    for cfg_text in ("allow ./tools/*\n", "allow tools/a.sh\n", "deny /tmp/other/**\nallow ./tools/*\n", "allow ../other/tools/a.sh\nallow ./tools/*\n", "allow-redirect ./out/*\nallow ./tools/*\n"):
+        for S_, C_ in (("./tools/a.sh", "/tmp/other/tools/b.sh"), ("tools/a.sh x", "/tmp/other/tools/a.sh x"), ("./tools/a.sh", "../other/tools/b.sh"), ("./tools/a.sh", "cat f > /tmp/other/out/f")):
+            for tmpl in ("(cd /tmp/other && {S}); {C}", "{C}; (cd /tmp/other && {S})", "(cd /tmp/other && {S}) && {C}", "(cd /tmp/other && {S}) | {C}", "if (cd /tmp/other && {S}); then {C}; fi", "{{ (cd /tmp/other && {S}); }}; {C}",
+                         "echo $(cd /tmp/other && {S}); {C}", "for i in 1; do (cd /tmp/other && {S}); done; {C}", "(cd /tmp/other && {S}) &\n{C}", "{C} || (cd /tmp/other; {S})"):
+                whole = tmpl.format(S=S_, C=C_)
+                dc = _analyze(C_, C.parse_config(cfg_text), Path(CWD))
+                dw = _analyze(whole, C.parse_config(cfg_text), Path(CWD))
+                evals += 2
+                stats["two_directory_lines"] += 1
+                if RANK[dw.action] < RANK[dc.action] and stats["two_directory_violations"] < 4:
+                    stats["two_directory_violations"] += 1
+                    vios.insert(0, {"input": {"command": whole, "config": cfg_text, "cwd": CWD}, "observed": {"verdict": dw.action, "reason": dw.reason, "sibling_alone": [C_, dc.action, dc.reason]},
+                                    "required": "the rule matches the command inside the (cd …) scope only; the sibling `%s` is judged %s on its own and nothing next to it may lower that" % (C_, dc.action), "oracle": "allow-rule-local(two directories)"})
     return {"violations": vios, "evaluations": evals, "distinct_nontrivial": distinct, "programs": n, "stats": dict(stats), "samples": samples, "oracle": "rule-locality on analyze(): redirect atoms rule-free, unmatched commands unchanged, max-of-parts under cfg+"}
 
 
